@@ -147,3 +147,43 @@ __CPROVER_ensures(g_p2_calls == (self->_has_format_part_2 ? 1 : 0) && (self->_ha
     trusted=['64-bit division by 10^9 (DIV_1E9 stub: its defining property is assumed; SAT does not finish the real division)', 'StringFromTime::format_timestamp (unit SFT.format_timestamp)', 'timestamps at or after the epoch'],
     min_obligations=20)
 UNITS.append(tf_format)
+
+# ------------------------------------------------------------------------------------------ TimestampFormatter constructor / StringFromTime::init
+CT_PRELUDE = r'''
+#define NPOS SIZE_MAX
+typedef uint8_t AdditionalSpecifier; enum { AS_None, AS_Qms, AS_Qus, AS_Qns };
+typedef uint8_t Timezone; enum { TZ_LocalTime, TZ_GmtTime };
+typedef struct TFc { AdditionalSpecifier _additional_format_specifier; bool _has_format_part_2; Timezone _timestamp_timezone; } TFc;
+size_t g_pos_qms, g_pos_qus, g_pos_qns, g_len;      /* where each specifier occurs in the pattern (NPOS: absent) */
+size_t g_init1_calls, g_init2_calls, g_p1_begin, g_p1_len, g_p2_begin, g_p2_len;
+static inline size_t FIND_SPEC(int which) { return which == AS_Qms ? g_pos_qms : (which == AS_Qus ? g_pos_qus : g_pos_qns); }
+void INIT_PART1(TFc* self, size_t begin, size_t len) __CPROVER_assigns(g_init1_calls, g_p1_begin, g_p1_len, g_exc) __CPROVER_ensures(g_init1_calls == OLD(g_init1_calls) + 1 && g_p1_begin == begin && g_p1_len == len && (g_exc == 0 || g_exc == EXC_STD));
+void INIT_PART2(TFc* self, size_t begin, size_t len) __CPROVER_assigns(g_init2_calls, g_p2_begin, g_p2_len, g_exc) __CPROVER_ensures(g_init2_calls == OLD(g_init2_calls) + 1 && g_p2_begin == begin && g_p2_len == len && (g_exc == 0 || g_exc == EXC_STD));
+#define COUNT_SPECS ((g_pos_qms != NPOS ? 1 : 0) + (g_pos_qus != NPOS ? 1 : 0) + (g_pos_qns != NPOS ? 1 : 0))
+#define THE_POS (g_pos_qms != NPOS ? g_pos_qms : (g_pos_qus != NPOS ? g_pos_qus : g_pos_qns))
+#define THE_SPEC (g_pos_qms != NPOS ? AS_Qms : (g_pos_qus != NPOS ? AS_Qus : AS_Qns))
+'''
+tf_ctor = dict(
+    name='TF.ctor', primary='C13', props={'C13'}, kind='S',
+    desc='TimestampFormatter constructor: more than one fractional specifier is rejected; otherwise the pattern is split into the part before and the part after the (4-character) specifier',
+    structs=[], prelude=CT_PRELUDE, enforce='TF_ctor', replace=['INIT_PART1', 'INIT_PART2'],
+    funcs=[dict(src=dict(header=TFH, cls='TimestampFormatter', name='TimestampFormatter'), cfun='TF_ctor', sig='void TF_ctor(TFc* self)', cls_c='TF',
+                member_fields=['_additional_format_specifier', '_has_format_part_2', '_timestamp_timezone'], exceptions=True, may_throw=['INIT_PART1', 'INIT_PART2'],
+                pre_rules=[(r'AdditionalSpecifier::(\w+)', r'AS_\1'), (r'_time_format\.find\(specifier_name\[(AS_\w+)\]\)', r'FIND_SPEC(\1)'), (r'std::string::npos', 'NPOS'),
+                           (r'_strftime_part_1\.init\(_time_format,\s*_timestamp_timezone\)\s*;', 'INIT_PART1(self, 0, g_len);'),
+                           (r'std::string\s+const\s+format_part_1\s*=\s*_time_format\.substr\(0,\s*specifier_begin\)\s*;\s*_strftime_part_1\.init\(format_part_1,\s*_timestamp_timezone\)\s*;', 'INIT_PART1(self, 0, specifier_begin);'),
+                           (r'std::string\s+const\s+format_part_2\s*=\s*_time_format\.substr\(specifier_end,\s*_time_format\.length\(\) - specifier_end\)\s*;', 'size_t const format_part_2_len = g_len - specifier_end;'),
+                           (r'!format_part_2\.empty\(\)', '(format_part_2_len != 0)'), (r'_strftime_part_2\.init\(format_part_2,\s*_timestamp_timezone\)\s*;', 'INIT_PART2(self, specifier_end, format_part_2_len);'),
+                           (r'throw\s*\(\s*QuillError\s*\{.*?\}\s*\)\s*;', 'throw(QuillError{"x"});')],
+                contract=r'''
+__CPROVER_requires(__CPROVER_is_fresh(self, sizeof(*self)) && g_exc == 0 && g_init1_calls == 0 && g_init2_calls == 0 && self->_additional_format_specifier == AS_None && !self->_has_format_part_2 && g_len <= (((size_t)1) << 30))
+__CPROVER_requires((g_pos_qms == NPOS || g_pos_qms + 4 <= g_len) && (g_pos_qus == NPOS || g_pos_qus + 4 <= g_len) && (g_pos_qns == NPOS || g_pos_qns + 4 <= g_len))
+__CPROVER_assigns(self->_additional_format_specifier, self->_has_format_part_2, g_exc, g_init1_calls, g_init2_calls, g_p1_begin, g_p1_len, g_p2_begin, g_p2_len)
+__CPROVER_ensures(COUNT_SPECS > 1 ==> g_exc == EXC_STD) /*@ C13 "using more than one fractional specifier is rejected" */
+__CPROVER_ensures((COUNT_SPECS == 0 && g_exc == 0) ==> (g_init1_calls == 1 && g_p1_len == g_len && g_init2_calls == 0 && self->_additional_format_specifier == AS_None)) /*@ C13 "without a fractional specifier the whole pattern is one strftime part" */
+__CPROVER_ensures((COUNT_SPECS == 1 && g_exc == 0) ==> (self->_additional_format_specifier == THE_SPEC && g_init1_calls == 1 && g_p1_begin == 0 && g_p1_len == THE_POS && g_init2_calls == ((THE_POS + 4 < g_len) ? 1 : 0) && (g_init2_calls == 1 ==> (g_p2_begin == THE_POS + 4 && g_p2_len == g_len - (THE_POS + 4) && self->_has_format_part_2)))) /*@ C13 "the pattern is split exactly around the fractional specifier: text before it, the specifier (4 characters), text after it" */
+''')],
+    harness='  TFc* t; TF_ctor(t);',
+    dropped=['pattern text: positions of the three specifiers are symbolic (std::string::find)', 'mem-initialiser list (moves the pattern string)', 'assert (NDEBUG)'],
+    trusted=['std::string::find / substr', 'StringFromTime::init (rejects %X: unit SFT.init)'], min_obligations=20)
+UNITS.append(tf_ctor)
